@@ -220,9 +220,16 @@ def run_sx(H, tier, regions=(), max_paths=None, max_s=None, witnesses=None):
 _MOD = None
 
 
+def _quiet():
+    import logging
+
+    logging.getLogger("pkgcore").setLevel(logging.ERROR)
+
+
 def _worker_init(modname):
     global _MOD
     sys.setrecursionlimit(10000)
+    _quiet()
     _MOD = importlib.import_module(modname)
 
 
@@ -287,6 +294,7 @@ def main(argv=None):
     tier = args.tier
     seed = int(os.environ.get("VERIF_SEED", "0"))
     modname = "props." + pid.lower()
+    _quiet()
     mod = importlib.import_module(modname)
     if args.replay:
         return replay(mod, pid, args.replay)
